@@ -236,6 +236,9 @@ func (env *Env) eval(x Expr) Val {
 		for i := 0; i < st.NumFields(); i++ {
 			if st.Field(i).Name() == n.Name {
 				fv := Val{T: s.GetField(v.Ty, v.T, i), Ty: st.Field(i).Type()}
+				if _, isSl := fv.Ty.Underlying().(*types.Slice); isSl && immutableHeap(s.StructHeap(v.Ty).Name) {
+					fv.Owned = true // a slice held by a go/ssa / go/types object: its elements live in the owned heap
+				}
 				env.mapTypeFact(fv)
 				return fv
 			}
@@ -258,6 +261,9 @@ func (env *Env) eval(x Expr) Val {
 		switch u := v.Ty.Underlying().(type) {
 		case *types.Slice:
 			h := s.ArrHeap(u.Elem())
+			if v.Owned {
+				h = s.ArrHeapOwned(u.Elem())
+			}
 			return Val{T: sx("select", sx("select", env.e.heapIn(env.st, h), sx("sref", v.T)), i.T), Ty: u.Elem()}
 		case *types.Map:
 			dom := sx("select", sx("select", env.e.heapIn(env.st, s.MapDom(u.Key())), v.T), i.T)
